@@ -49,7 +49,10 @@ ASSUMPTIONS = [
 
 def gen_case(r, index, tier):
     W, H = r.randint(4, 12), r.randint(4, 12)
-    die = designs.gen_die(r, family=r.choice(["dyadic", "decimal"]), scale_exp=0, max_regions=2, allow_special=False)
+    # mostly designs with coordinates around 1; some in small or large units (the solver's tolerances are relative to its
+    # own scaling, FRAME's bookkeeping must not care)
+    die = designs.gen_die(r, family=r.choice(["dyadic", "decimal"]), scale_exp=r.weighted([(0, 7), (-2, 1), (-1, 1), (2, 1)]),
+                          max_regions=2, allow_special=False)
     die["nx"], die["ny"] = max(die["nx"], 4), max(die["ny"], 4)
     die["nx"], die["ny"] = min(die["nx"], 12), min(die["ny"], 12)
     die["regions"] = [g for g in die["regions"] if g["box"][2] <= die["nx"] and g["box"][3] <= die["ny"]][:2]
